@@ -13,7 +13,7 @@ package zknth
 //@ func (*Proof).Verify
 //@   use bits
 //@   nopanic[C05]
-//@   modifies hstate(hash)
+//@   modifies hstate(hash), wlog(hash.h)
 //@   requires hash != nil && hash.h != nil && pkok(public.N) && pkvals(public.N) && pkbig(public.N) && public.R != nil
 
 //@ func challenge
